@@ -108,6 +108,7 @@ def run(ck):
         replay(ck, em, rec)
     quadrature(ck, em, rng, 6 if quick else 14)
     tail_sweep(ck, em, rng, 6 if quick else 30)
+    rare_components(ck, em, rng, 6 if quick else 40)
 
 
 def build(em, m, history=False):
@@ -317,3 +318,61 @@ def tail_sweep(ck, em, rng, count):
                 break
         if ok:
             ck.sample({"mechanism": "M2", "tail_sweep": scn, "samples": len(X), "verdict": "ok"}, limit=3)
+
+
+def rare_components(ck, em, rng, count):
+    """GmmDensity holds for every positive weight: machines with one component of weight 1e-3 ... 1e-15 (large
+    UBMs, components emptied by training), scored at samples near that component and tens of standard deviations
+    from the heavy ones, where the rare component carries the likelihood."""
+    import dask
+    import dask.array as da
+    for i in range(count):
+        r = np.random.RandomState(rng.randrange(10 ** 6))
+        C, D = int(r.randint(2, 5)), int(r.randint(1, 4))
+        small = 10.0 ** -r.uniform(3, 15.5, size=1 + (C > 2 and r.rand() < 0.3))
+        w = r.uniform(0.2, 1, size=C)
+        w[:len(small)] = 0
+        w = w / w.sum() * (1 - small.sum())
+        w[:len(small)] = small
+        mu = r.normal(size=(C, D)) * 2
+        mu[:len(small)] += 60.0 * r.choice([-1, 1], size=(len(small), D))       # far from the heavy components
+        var = r.uniform(0.3, 2.5, size=(C, D))
+        g = em.GMMMachine(C, weights=w.copy())
+        if i % 2:
+            g.means, g.variances = mu.copy(), var.copy()
+        else:
+            g.means, g.variances = mu.copy(), var.copy()
+            g.weights = w.copy()                # assigned after the Gaussians
+        X = np.concatenate([mu[k] + r.normal(size=(4, D)) * np.sqrt(var[k]) for k in range(C)])
+        exp = [dec_ll(g, x) for x in X]
+        exp_ll = np.array([float(e[1]) for e in exp])
+        exp_lwl = np.array([[float(v) for v in e[0]] for e in exp]).T
+        ck.replayed += 1
+        ck.seen(["rare", i, w.tolist()])
+        scn = {"weights": w.tolist(), "means": mu.tolist(), "variances": var.tolist()}
+
+        def bad(clause, detail):
+            ck.violation("M2:GmmDensity:" + clause, {"mechanism": "M2", "module": "GmmDensity", "scenario": scn, "detail": detail})
+
+        def close(a, b, tol=1e-11):
+            a, b = np.asarray(a, dtype=float), np.asarray(b, dtype=float)
+            return a.shape == b.shape and np.all(np.isfinite(a)) and np.all(np.abs(a - b) <= tol * np.maximum(1.0, np.abs(b)))
+        lwl = np.asarray(g.log_weighted_likelihood(X))
+        if not close(lwl, exp_lwl):
+            bad("CachedFormIsDensity", "component of weight %s: log_weighted_likelihood off by %.3e"
+                % (small.tolist(), float(np.max(np.abs(lwl - exp_lwl)))))
+            continue
+        ll = np.asarray(g.log_likelihood(X))
+        with dask.config.set(scheduler="synchronous"):
+            dl = np.asarray(g.log_likelihood(da.from_array(X, chunks=(3, D))).compute())
+        one = np.array([float(np.asarray(g.log_likelihood(x))[0]) for x in X])
+        st = g.acc_stats(X)
+        if not (close(ll, exp_ll) and close(dl, exp_ll) and close(one, exp_ll)):
+            bad("LogSumExp", "component of weight %s: log_likelihood off by %.3e (batch) %.3e (Dask) %.3e (single vectors)"
+                % (small.tolist(), float(np.max(np.abs(ll - exp_ll))), float(np.max(np.abs(dl - exp_ll))), float(np.max(np.abs(one - exp_ll)))))
+            continue
+        tot = float(sum(e[1] for e in exp))
+        if not close([float(st.log_likelihood)], [tot]):
+            bad("StatsLogLikelihood", "acc_stats(X).log_likelihood %r, expected %r" % (float(st.log_likelihood), tot))
+            continue
+        ck.sample({"mechanism": "M2", "rare_component": {"weights": w.tolist()}, "verdict": "ok"}, limit=3)
